@@ -420,7 +420,9 @@ def rule_shapes(facts):
 
 def run(ctx, t0):
     facts = ctx.facts()
-    rules = [rule_header(facts), rule_automaton(facts), rule_contexts(facts), rule_window(facts), rule_shapes(facts)]
+    from rules import rcterms
+    rules = [rule_header(facts), rule_automaton(facts), rule_contexts(facts), rule_window(facts), rule_shapes(facts),
+             rcterms.rule_rangedecoder(facts)]
     expl = ("Static, structural clauses only: the finite tables (state automaton constants and thresholds, repeat "
             "rotation, table shapes and initialisers), the index/offset/length terms and the who-writes facts of the "
             "circular window are extracted from MIR and compared with the format's. This is a necessary condition of "
